@@ -10,7 +10,8 @@ open Gossamer Gossamer.C34
       → `<res>:<slots>;…|<hash/prio/order/index …>|txs=<sorted hashes>|ord=<currOrder>`
         (`<slots>` = hashes in slice order, `!` appended when some `index` ≠ its position)
    `table <Type>|<table>` → `safe`/`racy <method>` decided over the table extracted from the current
-   source (as in C35); `race …` → `ok` -/
+   source (as in C35); `race …` → `ok`
+   `pwt <seed> <rounds>` → `lost=0 rounds=<rounds>` (conservation under a concurrent PopWithTimer) -/
 
 def showSlots (q : PQ) : String :=
   let l := q.toList
@@ -56,6 +57,13 @@ def seqCase (body : String) : String :=
 def step (line : String) : String :=
   match words line with
   | "race" :: _ => "ok"
+  | ["pwt", _, rounds] =>
+    -- concurrent PopWithTimer scenario: every schedule is (C34_linearizable) a sequential run in
+    -- which PopWithTimer is a Pop or a nil that took nothing (C34_nil_takes_nothing), and every
+    -- sequential run conserves transactions (C34_conservation): nothing may be lost
+    match rounds.toNat? with
+    | some n => s!"lost=0 rounds={n}"
+    | none => "bad-op"
   | "table" :: _ =>
     -- the lock table the harness extracted from the CURRENT source is on the line: decide it
     match line.splitOn "|" with
